@@ -8,11 +8,15 @@ over the run-level object of the stream machine (`BV/Model/StreamRun.lean`: `run
   than `available_out` bytes (cursor balance of the stream machine, C13/C20's `call_good`), so the
   hypothesis `so.totalOut ≤ outCap` of `BV.Props.C08.oneshot_contract` is discharged for the
   outcome the stream model computes.
+* `nonfinal_requests_cover_blocks_run`: the hypothesis `BlocksOK` of the stream clause DERIVED FROM THE
+  RUN — one theorem over `run` for every never-flushed history at quality ≥ 2 (instance `nfqSim` of the
+  run-level simulation `run_sim`, Lemmas/StreamRunSim.lean + StreamNFFull.lean).
 -/
 import BV.Props.C08
 import BV.Lemmas.AdaptersStreamEnc
 import BV.Lemmas.StreamRunTile
 import BV.Model.StreamNF
+import BV.Lemmas.StreamNFFull
 
 namespace BV.Props.C08Run
 open BV.Stream BV.Bits BV.Stored
@@ -32,7 +36,7 @@ theorem stream_phase_within_buffer {o : Oracle} {B fuel op cap : Nat} {input : B
   have hip : (ensureInitialized s).inputPos = 0 := by
     obtain ⟨p, rfl⟩ := hf
     simp [ensureInitialized, St.new]
-  obtain ⟨q1, _⟩ := call_good (M := (14 + 176 + B) / 8) hop hG (by rw [hip]; omega) hB (Nat.le_refl _) h
+  obtain ⟨q1, _⟩ := call_good hop hG (by rw [hip]; omega) h
   exact ⟨q1, by omega⟩
 
 /-- **oneshot_contract_run**: `oneshot_contract` with its stream-phase hypothesis discharged.  For
@@ -99,6 +103,46 @@ theorem oneshot_run_contract {o : Oracle} {B fuel : Nat} (quality lgwin : Int) (
       obtain ⟨r, h1, h2, h3, h4, h5⟩ := oneshot_contract_run x outCap bufLen _ so hB (oneshotState_fresh quality lgwin x.length) hn hbuf hso
       exact ⟨r, h1, h2, fun hr => ⟨(h3 hr).1, (h3 hr).2.1⟩, h4, h5⟩
     · cases h
+
+/-! ## the never-flushed stream: `BlocksOK` from the run -/
+
+/-- **nonfinal_requests_cover_blocks_run**: for EVERY history of `set_parameter` / `take_output` /
+PROCESS / FINISH calls (any chunking, any output capacities, any oracle) on a fresh encoder that ends
+at quality ≥ 2, every payload-encoder request of the whole history (`t.reqs`, compared with the real
+run on every `stream` / `header nfrun` line) is an `encode_data` request of the main loop, is never a
+forced flush, starts its meta-block no later than its own range, and — unless it is the final one —
+sees a full input block of at least 2^14 bytes; so the span `hi - lf` of every meta-block closed by a
+non-final request is at least 2^14: `BlocksOK`, for the whole run, with no hypothesis on the payload
+encoder. -/
+theorem nonfinal_requests_cover_blocks_run {o : Oracle} {fuel : Nat} {calls : List Call} {s0 s : St} {t : Trace}
+    (hf : IsFresh s0) (hnf : NeverFlushed calls) (hw : histLen calls < two64)
+    (h : run o fuel calls s0 {} = .ok (s, t)) (hq : s.q01 = false) :
+    ∀ r ∈ t.reqs, r.site = 0 ∧ r.forceFlush = false ∧ r.lf ≤ r.lo
+      ∧ (r.isLast = false → 2 ^ 14 ≤ r.hi - r.lo ∧ 2 ^ 14 ≤ r.hi - r.lf) := by
+  intro r hr
+  obtain ⟨h1, h2, h3, h4⟩ := nf_requests_full hf hnf hw h hq r hr
+  exact ⟨h1, h2, h3, fun hl => ⟨h4 hl, by have := h4 hl; omega⟩⟩
+
+/-- non-vacuity: a never-flushed quality-5 history (the run of C01's example) -/
+example : NeverFlushed [.setParam 1 5, .stream 0 [1, 2, 3] 100, .take 0, .stream 2 [] 100] :=
+  ⟨Or.inl rfl, Or.inr rfl, trivial⟩
+
+/-
+WHAT IS STILL NOT ONE THEOREM (`stream_total_le_bound_run`: total bytes delivered ≤ Max(total input)
+over `run`).  Done at run level: `BlocksOK` (above), the tiling of the input by the requests and the
+meaning of the closed flags (C01 `requests_tile_input_run`, `closed_flags_mark_boundaries`), the bit-exact
+framing `deliveredBits = concatenation of the log's pieces` (C01 `delivered_is_framed_concat`), and the
+generic vehicle `run_sim`.  Missing for the sum: a second simulation instance whose transitions record,
+for the FIRST `encode_data` event, that the skeleton is exactly `headLen` bits (magic-number block with
+≤ 5 size-hint bytes for `size_hint < 2^35`, stored prelude of `pre ≤ 2` bytes) and for later ones that it
+is empty (`encMid_both`, proved in Lemmas/StreamNFStep.lean; the first-invocation lemma `encMid_first` is
+written there as a comment: its proof script makes Lean 4.33 loop in `isDefEq` on `encMagic … .1`), that
+no sync block occurs without a FLUSH, and that nothing is encoded after the final request; then
+`Run`/`run_bound`/`stream_total_bound` apply to the log with the per-meta-block growth bound (`Guard`,
+proved by `guard_holds` from the size decision of `WriteMetaBlockInternal`) as the only payload
+hypothesis.  Meta-block lengths ≤ 2^24 additionally need the emit rule of `encode_data`
+(`next_input_fits_metablock`) as an oracle hypothesis: the stream model leaves `emit` to the oracle.
+-/
 
 /-! non-vacuity: a quality-5 one-shot call on three bytes whose payload encoder answers 20 bits —
 with room the stream result is returned, with a 2-byte buffer the call fails cleanly -/
